@@ -1,8 +1,8 @@
 #!/bin/bash
 # tools/handle_mut3.sh <Cxx> [<extra Cxx> ...] : confirm a sub-agent's seeded change (tools/confirm_mut3.sh) in its scratch worktree
-# /tmp/mut6/<Cxx>, then run the property's quick check against it (tools/sweep_one.sh). Triage helper, never a registered check.
+# /tmp/mut7/<Cxx>, then run the property's quick check against it (tools/sweep_one.sh). Triage helper, never a registered check.
 P="$1"; shift
-W=/tmp/mut6/$P
+W=/tmp/mut7/$P
 /verif/tools/confirm_mut3.sh "$W" "$P" > "$W/_out/handle.log" 2>&1
 cd /verif && SWEEP_JOBS=6 SWEEP_WORKERS=8 tools/sweep_one.sh "$W/_out/$P.patch.diff" "m3-$P" - "$P" "$@" >> "$W/_out/handle.log" 2>&1
 echo "HANDLED $P" >> "$W/_out/handle.log"
